@@ -49,9 +49,9 @@ class Diagnostic:
         return "other"
 
 
-def run(unit_path, workdir, extra=None, timeout=900):
-    cmd = ["verus", os.path.basename(unit_path), "--output-json", "--time-expanded", "--multiple-errors", "20",
-           "--error-format=json", "--rlimit", RLIMIT, "--num-threads", "4"] + (extra or [])
+def run(unit_path, workdir, extra=None, timeout=900, multiple_errors=20, rlimit=None):
+    cmd = ["verus", os.path.basename(unit_path), "--output-json", "--time-expanded", "--multiple-errors", str(multiple_errors),
+           "--error-format=json", "--rlimit", str(rlimit or RLIMIT), "--num-threads", "4"] + (extra or [])
     t0 = time.time()
     try:
         p = subprocess.run(cmd, cwd=workdir, capture_output=True, text=True, timeout=timeout)
